@@ -17,6 +17,8 @@ func main() {
 	switch what {
 	case "morton":
 		name, text = "Morton.lean", trMorton(filepath.Join(repo, "morton", "morton.go"))
+	case "flags":
+		name, text = "Flags.lean", trFlags(repo)
 	case "skel":
 		name, text = "Skel.lean", trSkel(repo)
 	default:
